@@ -442,6 +442,21 @@ for case_no, case in enumerate(cases):
     problems = oracle(case, src, out, S, O)
     for m in problems:
         R.violation('oracle', inp, m)
+    if case_no % 3 == 0:
+        # the same conversion through a converter opened with preload=True (the source read from memory): same file
+        outp = out + '.preload'
+        try:
+            with SgzConverter(src, preload=True) as cp:
+                quiet(cp.convert_to_adv_sgz, outp)
+            if open(outp, 'rb').read() != open(out, 'rb').read():
+                R.violation('oracle', dict(inp, converter='SgzConverter(path, preload=True)'),
+                            'the file written through a preloaded converter differs from the one written without preload')
+        except Exception as e:
+            R.violation('oracle', dict(inp, converter='SgzConverter(path, preload=True)'), 'convert_to_adv_sgz raised ' + repr(e)[:200])
+        finally:
+            if os.path.exists(outp):
+                os.remove(outp)
+        R.count('preloaded converter')
     R.case(canon, nontrivial=case['shape'] != (1, 1, 1),
            sample={'shape': list(case['shape']), 'irregular': case['irregular'], 'headers': case['cfg'], 'stored_arrays': S.nha,
                    'out_blocks': O.ndb, 'reads': len(reads)})
